@@ -46,4 +46,67 @@ static inline int K_sub_idx(const struct ARRN* self, int i)
   __CPROVER_loop_invariant(ALL_PREFIX_OK(self, i - self->min_index))                                                   \
   __CPROVER_loop_invariant(i <= self->max_index ==> mem == self->sub_addr[i - self->min_index])                        \
   __CPROVER_decreases(self->max_index + 1 - i)
+
+/* ---- Array<n>::init(range, data_ptr, copy_data) and Array<n>::resize(range), n >= 2 ----
+   The outer VectorWithOffset::resize delivers the requested index range (tier A kernel K_vwo_resize); the loop walks the sub-arrays and the
+   sub-ranges in lockstep. init: sub-array k views the block that starts where sub-array k-1 ends, the first one starts at data_ptr, each has
+   the size of its sub-range - so the array aliases [data_ptr, data_ptr + total size) exactly and is_contiguous() (ALL_SUBS_OK) holds.
+   Sub-array init/resize themselves: the same statement one dimension down (Array<1>: VectorWithOffset::init / K_arr1_resize). */
+struct RANGEN { int min_index, max_index; long sub_size[ARR_MAXSUB]; }; /* IndexRange<n>: outer range and size_all() of every sub-range */
+int g_k, g_sub_calls, g_sub_bad;
+static inline void K_outer_resize(struct ARRN* self, int mn, int mx) { self->min_index = mn; self->max_index = mx; } /* base_type::resize: contract of K_vwo_resize */
+#define RANGE_OK(r) ((r)->min_index > -100000 && (r)->min_index <= (r)->max_index && (r)->max_index < 100000 && (r)->max_index - (r)->min_index + 1 <= ARR_MAXSUB)
+#define RSZ_OK(r, k) ((r)->sub_size[k] >= 0 && (r)->sub_size[k] < (1L << 40))
+#define ALL_RSZ_OK(r) (RSZ_OK(r, 0) && RSZ_OK(r, 1) && RSZ_OK(r, 2) && RSZ_OK(r, 3) && RSZ_OK(r, 4) && RSZ_OK(r, 5) && RSZ_OK(r, 6) && RSZ_OK(r, 7))
+#define K_SUB_INIT(self, it, rit, p, copy)                                                                            \
+  do                                                                                                                  \
+    {                                                                                                                 \
+      __CPROVER_assert((it) >= 0 && (it) < ARR_N(self) && (rit) == (it), "sub-array and sub-range iterators in lockstep, inside the array"); \
+      (self)->sub_addr[it] = (p); (self)->sub_size[it] = range->sub_size[rit]; (self)->sub_contig[it] = 1;             \
+    }                                                                                                                 \
+  while (0)
+#define RANGE_SIZE(r, rit) ((r)->sub_size[rit])
+#define INIT_SUB_DONE(s, r, d, k, upto)                                                                               \
+  (!((k) < (upto)) || ((s)->sub_contig[k] && (s)->sub_size[k] == (r)->sub_size[k]                                      \
+                       && (s)->sub_addr[k] == ((k) == 0 ? (d) : (s)->sub_addr[(k) > 0 ? (k)-1 : 0] + (s)->sub_size[(k) > 0 ? (k)-1 : 0])))
+#define ALL_INIT_DONE(s, r, d, upto)                                                                                  \
+  (INIT_SUB_DONE(s, r, d, 0, upto) && INIT_SUB_DONE(s, r, d, 1, upto) && INIT_SUB_DONE(s, r, d, 2, upto) && INIT_SUB_DONE(s, r, d, 3, upto)     \
+   && INIT_SUB_DONE(s, r, d, 4, upto) && INIT_SUB_DONE(s, r, d, 5, upto) && INIT_SUB_DONE(s, r, d, 6, upto) && INIT_SUB_DONE(s, r, d, 7, upto))
+#define CONTRACT_K_arrn_init                                                                                         \
+  __CPROVER_requires(__CPROVER_is_fresh(self, sizeof(*self)) && __CPROVER_is_fresh(range, sizeof(*range)) && RANGE_OK(range) && ALL_RSZ_OK(range)) \
+  __CPROVER_requires(data_ptr >= 0 && data_ptr < (1L << 43))                                                           \
+  __CPROVER_assigns(*self)                                                                                             \
+  __CPROVER_ensures(self->min_index == range->min_index && self->max_index == range->max_index)                        \
+  __CPROVER_ensures(ALL_INIT_DONE(self, range, data_ptr, ARR_N(self)))                                                 \
+  __CPROVER_ensures(ALL_SUBS_OK(self) && self->sub_addr[0] == data_ptr)
+#define LC_K_arrn_init_0                                                                                             \
+  __CPROVER_assigns(iter, range_iter, ptr, __CPROVER_object_whole(self))                                               \
+  __CPROVER_loop_invariant(self->min_index == range->min_index && self->max_index == range->max_index)                 \
+  __CPROVER_loop_invariant(0 <= iter && iter <= ARR_N(self) && range_iter == iter)                                     \
+  __CPROVER_loop_invariant(ALL_INIT_DONE(self, range, data_ptr, iter))                                                 \
+  __CPROVER_loop_invariant(ptr == (iter == 0 ? data_ptr : self->sub_addr[iter > 0 ? iter - 1 : 0] + self->sub_size[iter > 0 ? iter - 1 : 0])) \
+  __CPROVER_decreases(ARR_N(self) - iter)
+#define K_SUB_RESIZE(self, it, rit)                                                                                   \
+  do                                                                                                                  \
+    {                                                                                                                 \
+      __CPROVER_assert((it) >= 0 && (it) < ARR_N(self) && (rit) >= 0 && (rit) < ARR_N(self), "sub-array and sub-range iterators inside their sequences"); \
+      if ((it) == g_k) { ++g_sub_calls; if ((rit) != g_k) g_sub_bad = 1; }                                             \
+      (self)->sub_size[it] = range->sub_size[rit];                                                                     \
+    }                                                                                                                 \
+  while (0)
+#define CONTRACT_K_arrn_resize                                                                                       \
+  __CPROVER_requires(__CPROVER_is_fresh(self, sizeof(*self)) && __CPROVER_is_fresh(range, sizeof(*range)) && RANGE_OK(range) && ALL_RSZ_OK(range)) \
+  __CPROVER_requires(g_sub_calls == 0 && g_sub_bad == 0 && g_k > -100000 && g_k < 100000)                              \
+  __CPROVER_assigns(*self, g_sub_calls, g_sub_bad)                                                                     \
+  __CPROVER_ensures(self->min_index == range->min_index && self->max_index == range->max_index)                        \
+  /* every sub-array is resized exactly once, with the sub-range of its own index */                                \
+  __CPROVER_ensures(g_sub_bad == 0 && g_sub_calls == ((g_k >= 0 && g_k < ARR_N(self)) ? 1 : 0))                        \
+  __CPROVER_ensures(!(g_k >= 0 && g_k < ARR_N(self)) || self->sub_size[g_k] == range->sub_size[g_k])
+#define LC_K_arrn_resize_0                                                                                           \
+  __CPROVER_assigns(iter, range_iter, __CPROVER_object_whole(self), g_sub_calls, g_sub_bad)                            \
+  __CPROVER_loop_invariant(self->min_index == range->min_index && self->max_index == range->max_index)                 \
+  __CPROVER_loop_invariant(0 <= iter && iter <= ARR_N(self) && range_iter == iter && g_sub_bad == 0)                   \
+  __CPROVER_loop_invariant(g_sub_calls == ((g_k >= 0 && g_k < iter) ? 1 : 0))                                          \
+  __CPROVER_loop_invariant(!(g_k >= 0 && g_k < iter) || self->sub_size[g_k] == range->sub_size[g_k])                   \
+  __CPROVER_decreases(ARR_N(self) - iter)
 #endif
